@@ -130,6 +130,11 @@ def check(spec, ctx):
     exp_total = float(np.mean(clip_scores)) if clip_scores else 0.0
     if ev.score is None or abs(ev.score - exp_total) > 1e-9:
         ctx.fail(f"overall score {ev.score}, mean of the clip scores is {exp_total}", spec, ev.score, exp_total, kind="overall_score")
+    ev_again = sound_event_detection(cps, cas, vocab)
+    if ev_again.score != ev.score or [(str(m.source.uuid) if m.source else None, str(m.target.uuid) if m.target else None, m.affinity, m.score) for ce in ev_again.clip_evaluations for m in ce.matches] != [
+        (str(m.source.uuid) if m.source else None, str(m.target.uuid) if m.target else None, m.affinity, m.score) for ce in ev.clip_evaluations for m in ce.matches
+    ]:
+        ctx.fail("evaluating the same inputs twice gives different matches / scores", spec, None, None, kind="not_repeatable")
     if ev.evaluation_task != "sound_event_detection":
         ctx.fail("evaluation_task is not sound_event_detection", spec, ev.evaluation_task, None, kind="task")
 
